@@ -158,6 +158,31 @@ func runC19(c *Ctx) {
 		c.Check("F", fnName(fn)+"/votes are the two inputs in key order", strings.HasPrefix(got["VoteA"], "phi(") && strings.Contains(got["VoteA"], "vote1") && strings.Contains(got["VoteA"], "vote2") && strings.HasPrefix(got["VoteB"], "phi("), fn.Pos(), 2, got["VoteA"]+" / "+got["VoteB"])
 	}
 
+	// The hash is hash(Bytes()) = hash(ToProto().Marshal()): the wire form carries each field from the like-named field.
+	if fn := c.Fn("types", "DuplicateVoteEvidence", "Hash"); fn != nil {
+		n := len(findInstrs(fn, CallTo(`^types\.hash$`, `^types\.hash\(call:\(\*types\.DuplicateVoteEvidence\)\.Bytes\(dve\)\)$`)))
+		c.Check("F", fnName(fn)+"/hashes the full encoding (Bytes)", n == 1, fn.Pos(), n, "")
+	}
+	if fn := c.Fn("types", "DuplicateVoteEvidence", "Bytes"); fn != nil {
+		n := len(findInstrs(fn, CallTo(`\.Marshal$`, `\.Marshal\(call:\(\*types\.DuplicateVoteEvidence\)\.ToProto\(dve\)\)$`)))
+		c.Check("F", fnName(fn)+"/marshals the wire form of this item", n == 1, fn.Pos(), n, "")
+	}
+	if fn := c.Fn("types", "DuplicateVoteEvidence", "ToProto"); fn != nil {
+		got := map[string]string{}
+		for _, in := range findInstrs(fn, func(in ssa.Instruction) bool { _, ok := in.(*ssa.Store); return ok }) {
+			st := in.(*ssa.Store)
+			if fa, ok := st.Addr.(*ssa.FieldAddr); ok && strings.HasSuffix(fa.X.Type().String(), "proto/kardiachain/types.DuplicateVoteEvidence") {
+				f := pathOf(st.Addr)
+				got[f[strings.LastIndex(f, ".")+1:]] = pathOf(st.Val)
+			}
+		}
+		want := map[string]string{"VoteA": "call:(*types.Vote).ToProto(dve.VoteA)", "VoteB": "call:(*types.Vote).ToProto(dve.VoteB)",
+			"TotalVotingPower": "dve.TotalVotingPower", "ValidatorPower": "dve.ValidatorPower", "Timestamp": "dve.Timestamp"}
+		for _, f := range []string{"VoteA", "VoteB", "TotalVotingPower", "ValidatorPower", "Timestamp"} {
+			c.Check("F", fnName(fn)+"/wire form carries "+f, got[f] == want[f], fn.Pos(), 1, got[f])
+		}
+	}
+
 	// ---- unit agreement of the evidence budget ----------------------------------------------------------------
 	nP := 0
 	for _, s := range c.CallSites(`\)\.PendingEvidence$`) {
@@ -215,4 +240,15 @@ func runC19(c *Ctx) {
 		c.Check("O", fnName(fn)+"/removes committed evidence from pending", n == 1, fn.Pos(), n, "")
 	}
 	validateBlockChecklist(c)
+	// ---- the evidence hash identifies everything that verification vouched for --------------------------------------------
+	// The pool treats "same hash as a pending or committed item" as "already verified" (fastCheck) and keys both stores by
+	// it, so the hash has to cover every field, the stated powers and the timestamp included.
+	if fn := c.Fn("types", "DuplicateVoteEvidence", "Hash"); fn != nil {
+		e := c.Effects(fn, 3).Reads
+		for _, f := range c.namedFields("types.DuplicateVoteEvidence") {
+			c.Check("E", fnName(fn)+"/the evidence hash covers "+f, e[fieldRef{"types.DuplicateVoteEvidence", f}], fn.Pos(), 1,
+				"two items that differ only in "+f+" share one hash: once the genuine item is pending, a variant with a forged "+f+" in a proposed block is accepted without verification")
+		}
+	}
+
 }
